@@ -25,6 +25,13 @@ type symslice struct {
 	elem      types.Type
 }
 
+// bigArray is the value of a huge scalar array variable, kept sparse.
+type bigArray struct {
+	obj  *bobj
+	n    int
+	elem types.Type
+}
+
 // bobj is the backing object of a symslice.
 type bobj struct {
 	id      int
@@ -180,6 +187,10 @@ func (i *interpreter) indexAddr(fr *frame, instr *ssa.IndexAddr, x, idx value) v
 		if x == nil {
 			fr.nilPanic(instr)
 		}
+		if ba, ok := (*x).(*bigArray); ok {
+			i.inRange(fr, idx, ba.n, "index out of range", instr.Pos())
+			return &symcellref{&symslice{obj: ba.obj, off: 0, n: ba.n, c: ba.n, elem: ba.elem}, toInt(idx)}
+		}
 		elems = (*x).(array)
 		et = mustDeref(instr.X.Type()).Underlying().(*types.Array).Elem()
 	case *symslice:
@@ -324,6 +335,9 @@ func (i *interpreter) sliceOp(fr *frame, instr *ssa.Slice, x, lo, hi, max value)
 	case *value:
 		if xs == nil {
 			fr.nilPanic(instr)
+		}
+		if ba, ok := (*xs).(*bigArray); ok {
+			return i.sliceSym(fr, instr, &symslice{obj: ba.obj, off: 0, n: ba.n, c: ba.n, elem: ba.elem}, lo, hi, max)
 		}
 		if anySym {
 			a := (*xs).(array)
